@@ -23,7 +23,8 @@ from ..poly import eq
 from ..util import calls_in, qual, formals, returns_of, raises_of, \
     raise_name, has_fact, bind
 from ..terms import Terms, plain, unsite, is_none, mk_cmp, match, V, ANY, \
-    alternatives, subterms, lookup, presence, show, owner_terms
+    alternatives, subterms, lookup, presence, show, owner_terms, \
+    owner_views
 
 PL = "rig.place_and_route.place"
 PLACERS = {
@@ -237,15 +238,86 @@ def r1_commits(program, rep):
         rep.check(n_mov >= 1, "C02-R1", inst, "%s has a guarded commit of "
                   "movable vertices" % name, construct="movable commits %d"
                   % n_mov, node=fn)
-    rep.floor("C02-R1", 10)
+    # sequential: the search over the chip cycle gives up when it comes
+    # back to the chip of the last success; that sentinel must itself be a
+    # chip of the cycle on every path, or the search never ends
+    fn = program.get(PLACERS["sequential"])
+    T = Terms(fn)
+    okg = False
+    detail = "give-up test not found"
+    for r in raises_of(fn):
+        if raise_name(r) != "InsufficientResourceError":
+            continue
+        rn = T.cfg.node_of(r)
+        for a in T.cfg.nodes:
+            if a.kind != "assume" or not a.polarity or \
+                    not T.cfg.dominates(a, rn):
+                continue
+            t, p_ = T.cond(a.ast, a, True)
+            if t[0] == "cmp" and t[1] == "Eq" and p_:
+                sides = [alternatives(t[2]), alternatives(t[3])]
+                drawn = [all(any(st[0] == "callv" and
+                                 st[1] == ("global", "next")
+                                 for st in subterms(x)) or x == ("rec",)
+                             for x in side) for side in sides]
+                if any(drawn):
+                    okg = all(drawn)
+                    detail = "" if okg else "compared with %s" % ", ".join(
+                        sorted(show(x)[:40] for side in sides for x in side
+                               if not any(st[0] == "callv"
+                                          for st in subterms(x))))
+    rep.check(okg, "C02-R1", qual(fn), "the give-up test of the chip search "
+              "compares the current chip with a chip drawn from the same "
+              "cycle on every path (so a full fruitless lap is always "
+              "noticed)", construct="give-up sentinel", node=fn,
+              fail="the chip search gives up when the current chip equals a "
+                   "sentinel that is not always a chip of the cycle (%s): "
+                   "if no chip fits the first vertex the loop never ends" %
+                   detail)
+    rep.floor("C02-R1", 11)
+
+
+def _owner_fn(n):
+    p = getattr(n, "_parent", None)
+    while p is not None and not isinstance(p, (ast.FunctionDef,
+                                               ast.AsyncFunctionDef)):
+        p = getattr(p, "_parent", None)
+    return p
+
+
+def _resource_sum(t, ops, roots, VRES, depth=0):
+    """Decompose a chip-resource total: the (operation, whose vertices)
+    applications it went through and the values it started from."""
+    if depth > 40:
+        roots.add(("?",))
+        return
+    t = plain(t)
+    if t[0] == "phi":
+        for x in t[1:]:
+            _resource_sum(x, ops, roots, VRES, depth + 1)
+        return
+    if t == ("rec",):
+        return
+    if t[0] == "call" and t[1][0] == "global" and t[1][1] in (
+            "add_resources", "subtract_resources") and len(t[2]) == 2:
+        second = t[2][1]
+        if second[0] == "item" and second[1] == VRES:
+            ops.add((t[1][1], second[2]))
+        else:
+            ops.add((t[1][1], second))
+        _resource_sum(t[2][0], ops, roots, VRES, depth + 1)
+        return
+    roots.add(t)
 
 
 def r2_kernel(program, rep):
     pk = PL + ".sa.python_kernel"
     step = program.get(pk + ":_step")
     inst = qual(step)
-    fl = Flow(step)
-    cfg = fl.cfg
+    T = Terms(step)
+    cfg = T.cfg
+    sw_def = program.get(pk + ":_swap")
+    gc_def = program.get(pk + ":_get_candidate_swap")
     swaps = calls_in(step, "_swap")
     ok = len(swaps) == 2
     rep.check(ok, "C02-R2", inst, "one swap and one revert",
@@ -253,77 +325,134 @@ def r2_kernel(program, rep):
     if ok:
         s1, s2 = swaps
         n1, n2 = cfg.node_containing(s1), cfg.node_containing(s2)
-        f = fl.facts(n1)
-        dstv = chain(s1.args[2])
-        dstl = chain(s1.args[3])
-        okg = has_fact(f, "%s not in machine" % dstl, False) and \
-            has_fact(f, "%s is None" % dstv, False) and \
-            any(not p and isinstance(c, ast.Call) and
-                call_name(c)[0] == "overallocated" for c, p, _ in f)
+        if cfg.dominates(n2, n1):
+            s1, s2, n1, n2 = s2, s1, n2, n1
+        names = formals(sw_def)
+        B1 = {k: T.term(v, n1) for k, v in bind(s1, sw_def).items()}
+        B2 = {k: T.term(v, n2) for k, v in bind(s2, sw_def).items()}
+        vas, val_, vbs, vbl = names[:4]
+        mach = [p_ for p_ in formals(step) if p_ == "machine"]
+        vres = [p_ for p_ in formals(step) if p_ == "vertices_resources"]
+        if not mach or not vres:
+            raise AnalysisError("_step: machine / vertices_resources")
+        MACH, VRES = ("param", mach[0]), ("param", vres[0])
+        SRCL, DSTL, DSTV = B1[val_], B1[vbl], B1[vbs]
+        mv = plain(B1[vas])
+        SRCV = mv[1] if mv[0] == "list" and len(mv) == 2 else None
+        f = T.all_facts(n1)
+        fit = None
+        for t, p in f:
+            if not p and t[0] == "call" and \
+                    t[1] == ("global", "overallocated") and len(t[2]) == 1:
+                fit = t[2][0]
+        okg = (mk_cmp("In", DSTL, MACH), True) in f and \
+            (is_none(DSTV), False) in f and fit is not None
         rep.check(okg, "C02-R2", inst, "a swap happens only if the "
                   "destination chip exists, a set of vertices to displace "
                   "was found, and the displaced vertices fit on the source "
                   "chip", construct="swap admission", node=s1)
-        # the fit test is about machine[src] + src_vertex - displaced
         okf = False
-        for c, p, a in f:
-            if not p and isinstance(c, ast.Call) and \
-                    call_name(c)[0] == "overallocated":
-                rv = chain(c.args[0])
-                defs = [d for d in fl.defs if d.var == rv]
-                texts = [unparse(d.value) for d in defs
-                         if d.mode == "assign"]
-                srcl = chain(s1.args[1])
-                okf = "machine[%s]" % srcl in texts and any(
-                    t.startswith("add_resources(%s, " % rv) for t in texts) \
-                    and any(t.startswith("subtract_resources(%s, "
-                                         "vertices_resources[" % rv)
-                            for t in texts)
+        if fit is not None and SRCV is not None:
+            ops, roots = set(), set()
+            _resource_sum(fit, ops, roots, VRES)
+            okf = roots == {("item", MACH, plain(SRCL))} and ops == {
+                ("add_resources", plain(SRCV)),
+                ("subtract_resources", ("elem", plain(DSTV)))}
         rep.check(okf, "C02-R2", inst, "the fit test evaluates the source "
                   "chip's resources + the moving vertex - every displaced "
                   "vertex", construct="source fit computation", node=step)
-        a1 = [unparse(a) for a in s1.args]
-        a2 = [unparse(a) for a in s2.args]
-        okm = a1[0] == a2[0] and a1[2] == a2[2] and a1[1] == a2[3] and \
-            a1[3] == a2[1] and a1[4:] == a2[4:] and cfg.dominates(n1, n2)
+        okm = cfg.dominates(n1, n2) and plain(B1[vas]) == plain(B2[vas]) \
+            and B1[vbs] == B2[vbs] and B1[val_] == B2[vbl] and \
+            B1[vbl] == B2[val_] and all(B1.get(k) == B2.get(k)
+                                        for k in names[4:])
         rep.check(okm, "C02-R2", inst, "the revert is the same swap with "
                   "the two locations exchanged", construct="revert mirrors",
                   node=s2)
-        cand = calls_in(step, "_get_candidate_swap")
-        okc = len(cand) == 1 and [unparse(a) for a in cand[0].args[:2]] == [
-            "src_resources", dstl]
-        sr = fl.reaching("src_resources", n1)
-        okc = okc and len(sr) == 1 and unparse(sr[0].value) == \
-            "vertices_resources[src_vertex]"
+        okc = False
+        if DSTV[0] == "callv" and DSTV[1] == ("global",
+                                              "_get_candidate_swap"):
+            gb = dict(zip(formals(gc_def), DSTV[2]))
+            gb.update(dict(DSTV[3]))
+            okc = SRCV is not None and \
+                plain(gb.get(formals(gc_def)[0])) == (
+                    "item", VRES, plain(SRCV)) and \
+                gb.get(formals(gc_def)[1]) == DSTL
         rep.check(okc, "C02-R2", inst, "displaced vertices are chosen for "
                   "the moving vertex's own requirements at the destination",
                   construct="candidate arguments", node=step)
     sw = program.get(pk + ":_swap")
-    sfl = Flow(sw)
-    t = unparse(sw)
-    parts = ["placements[va] = vbs_location", "vas_location2v.remove(va)",
-             "vbs_location2v.append(va)",
-             "vas_resources = add_resources(vas_resources, resources)",
-             "vbs_resources = subtract_resources(vbs_resources, resources)",
-             "placements[vb] = vas_location", "vbs_location2v.remove(vb)",
-             "vas_location2v.append(vb)",
-             "vas_resources = subtract_resources(vas_resources, resources)",
-             "vbs_resources = add_resources(vbs_resources, resources)",
-             "machine[vas_location] = vas_resources",
-             "machine[vbs_location] = vbs_resources"]
-    missing = [p for p in parts if p not in t]
-    rep.check(not missing, "C02-R2", qual(sw), "a swap moves every vertex "
-              "in the placement map, in both chip lists and in both chips' "
-              "resource totals, symmetrically", construct="swap updates "
-              "missing %s" % missing, node=sw)
+    S = Terms(sw)
+    sp = formals(sw)   # vas, vas_location, vbs, vbs_location, l2v, vres, ...
+    vas, val_, vbs, vbl, l2v, vres_, plc, mch = sp[:8]
+    P_ = lambda n: ("param", n)      # noqa: E731
+    places, removes, appends = set(), set(), set()
+    for n_ in ast.walk(sw):
+        if isinstance(n_, ast.Assign) and len(n_.targets) == 1 and \
+                isinstance(n_.targets[0], ast.Subscript):
+            for view in owner_views(S, n_):
+                node = view.cfg.node_of(n_) if hasattr(view.cfg, "node_of") \
+                    else None
+                tgt = view.term(n_.targets[0], node)
+                if tgt[0] == "item" and tgt[1] == P_(plc):
+                    places.add((tgt[2], view.term(n_.value, node)))
+        if isinstance(n_, ast.Call) and isinstance(n_.func, ast.Attribute) \
+                and n_.func.attr in ("remove", "append") and \
+                len(n_.args) == 1:
+            for view in owner_views(S, n_):
+                node = view.cfg.node_containing(n_)
+                rec = (view.term(n_.args[0], node),
+                       view.term(n_.func.value, node))
+                (removes if n_.func.attr == "remove" else appends).add(rec)
+    EA, EB = ("elem", P_(vas)), ("elem", P_(vbs))
+    LA, LB = ("item", P_(l2v), P_(val_)), ("item", P_(l2v), P_(vbl))
+    ok_p = places == {(EA, P_(vbl)), (EB, P_(val_))}
+    ok_l = removes == {(EA, LA), (EB, LB)} and \
+        appends == {(EA, LB), (EB, LA)}
+    # the resource totals written back
+    ok_r = True
+    seen = set()
+    for n_ in ast.walk(sw):
+        if isinstance(n_, ast.Assign) and len(n_.targets) == 1 and \
+                isinstance(n_.targets[0], ast.Subscript) and \
+                _owner_fn(n_) is sw:
+            node = S.cfg.node_of(n_)
+            tgt = S.term(n_.targets[0], node)
+            if tgt[0] != "item" or tgt[1] != P_(mch):
+                continue
+            val = S.term(n_.value, node)
+            ops, roots = set(), set()
+            _resource_sum(val, ops, roots, P_(vres_))
+            here = tgt[2]
+            there = P_(vbl) if here == P_(val_) else P_(val_)
+            coming = EB if here == P_(val_) else EA
+            going = EA if here == P_(val_) else EB
+            seen.add(here)
+            ok_r = ok_r and roots == {("item", P_(mch), here)} and \
+                ops == {("add_resources", going),
+                        ("subtract_resources", coming)}
+    ok_r = ok_r and seen == {P_(val_), P_(vbl)}
+    rep.check(ok_p and ok_l and ok_r, "C02-R2", qual(sw), "a swap moves "
+              "every vertex in the placement map, in both chip lists and in "
+              "both chips' resource totals, symmetrically",
+              construct="swap updates%s%s%s" % (
+                  "" if ok_p else " (placements)",
+                  "" if ok_l else " (chip lists)",
+                  "" if ok_r else " (resource totals)"), node=sw)
     gc = program.get(pk + ":_get_candidate_swap")
-    gfl = Flow(gc)
-    ap = calls_in(gc, "append")
-    okx = len(ap) == 1
-    if okx:
-        f = gfl.facts(gfl.cfg.node_containing(ap[0]))
-        okx = has_fact(f, "vertices[i] in fixed_vertices", False) and \
-            has_fact(f, "i >= len(vertices)", False)
+    G = Terms(gc)
+    ap = [c for c in calls_in(gc, "append") if len(c.args) == 1]
+    rets = [G.term(r.value) for r in returns_of(gc)
+            if r.value is not None and not (
+                isinstance(r.value, ast.Constant) and r.value.value is None)]
+    okx = False
+    fixed = [p_ for p_ in formals(gc) if "fixed" in p_]
+    for c in ap:
+        n_ = G.cfg.node_containing(c)
+        if G.term(c.func.value, n_) not in rets:
+            continue
+        x = G.term(c.args[0], n_)
+        okx = bool(fixed) and (mk_cmp("In", x, P_(fixed[0])), False) in \
+            G.all_facts(n_)
     rep.check(okx, "C02-R2", qual(gc), "fixed (location-constrained) "
               "vertices are never selected for displacement",
               construct="fixed vertices stay", node=gc)
@@ -505,6 +634,55 @@ def r4_pairing(program, rep):
                            "same-chip vertices: merged pseudo-vertices leak "
                            "into the result and constrained vertices are "
                            "missing" % (name, v))
+    # the annealer expands merged vertices for its progress callback on a
+    # copy: the kernel's own placement map must keep the merged vertices
+    # while the kernel is still stepping
+    fn = program.get(PLACERS["sa"])
+    T = Terms(fn)
+    n_fin = 0
+    for c in calls_in(fn, "finalise_same_chip_constraints"):
+        if len(c.args) < 2:
+            continue
+        node = T.cfg.node_containing(c)
+        arg = T.term(c.args[1], node)
+        src = arg
+        copied = False
+        if arg[0] in ("callv", "call") and arg[1][0] == "attr" and \
+                arg[1][2] == "copy":
+            copied, src = True, arg[1][1]
+        if arg[0] == "new" and arg[2][0] == "call" and \
+                arg[2][1] == ("global", "dict") and len(arg[2][2]) == 1:
+            copied, src = True, arg[2][2][0]
+        if not (src[0] in ("callv", "call") and src[1][0] == "attr" and
+                src[1][2] == "get_placements"):
+            continue
+        K = src[1][1]
+        later = False
+        for c2 in ast.walk(fn):
+            if isinstance(c2, ast.Call) and \
+                    isinstance(c2.func, ast.Attribute) and c2 is not c:
+                n2 = T.cfg.node_containing(c2)
+                if n2 is node or not T.cfg.reaches(node, n2):
+                    continue
+                if T.term(c2.func.value, n2) == K and \
+                        c2.func.attr != "get_placements":
+                    later = True
+        n_fin += 1
+        rep.check(copied or not later, "C02-R4", qual(fn), "merged "
+                  "vertices are expanded on a copy of the kernel's "
+                  "placements while the kernel is still used afterwards",
+                  construct="finalise on %s" % ("a copy" if copied else
+                                                "the kernel's own map"),
+                  node=c,
+                  fail="finalise_same_chip_constraints is applied to the "
+                       "dictionary the annealing kernel itself works on "
+                       "(k.get_placements() without a copy) and the kernel "
+                       "runs on afterwards: the merged vertex has been "
+                       "popped from its placement map and the next step "
+                       "raises KeyError")
+    rep.check(n_fin >= 2, "C02-R4", qual(fn), "the annealer expands the "
+              "kernel's placements for the callback and for the result",
+              construct="finalise sites %d" % n_fin, node=fn)
     # element-presence discipline in sequential's vertex-order rewrite
     fn = program.get(PLACERS["sequential"])
     fl = Flow(fn)
